@@ -9,7 +9,7 @@ from litex.gen.sim import run_simulation
 from litex.gen.fhdl.verilog import convert
 class D(Module):
     def __init__(self):
-        self.mem = Memory(8, 4, init=[0x11, 0x22, 0x33, 0x44]); self.p = self.mem.get_port(write_capable=True, mode=NO_CHANGE, we_granularity=4); self.specials += self.mem, self.p
+        self.mem = Memory(8, 4, init=[0x11, 0x22, 0x33, 0x44]); self.p = self.mem.get_port(write_capable=True, mode=NO_CHANGE, we_granularity=4); self.specials += self.mem, self.p; self.clock_domains.cd_sys = ClockDomain("sys")
 d = D(); seen = []
 def tb():
     yield d.p.adr.eq(1); yield d.p.we.eq(0); yield; yield
@@ -20,9 +20,10 @@ def tb():
     seen.append(("adr 3, we=11 (full write)", hex((yield d.p.dat_r))))
 run_simulation(d, tb())
 print("simulator dat_r:", seen)
-d2 = D(); io = {d2.p.adr, d2.p.dat_r, d2.p.we, d2.p.dat_w}
+d2 = D(); io = {d2.p.adr, d2.p.dat_r, d2.p.we, d2.p.dat_w, d2.cd_sys.clk, d2.cd_sys.rst}
 txt = convert(d2, ios=io, name="top").main_source
 body = txt.split("// Port 0")[1].split("endmodule")[0]
 print("emitted port logic:"); print(body)
 print("Verilog: `if (!we)` is false for we = 2'b01, the data register keeps 0x22 during the partial write; the simulator shows", seen[1][1])
-raise SystemExit(0 if "if (!we)" in txt and seen[1][1] != "0x22" and seen[2][1] == seen[1][1] else 1)
+import re
+raise SystemExit(0 if re.search(r"if \(!\w+\)\n\t\tmem_dat0 <= ", txt) and seen[0][1] == "0x22" and seen[1][1] != "0x22" else 1)
